@@ -11,6 +11,7 @@ import MC.Model.Numbers
 import MC.Spec.Rows
 import MC.Spec.Canon
 import MC.Model.Speech
+import MC.Model.TextCodes
 open Lean
 
 namespace MC.Driver
@@ -286,7 +287,13 @@ def handleSpeech (op : String) (req : Json) : Option Json :=
   | "speech_final" => some <| okJ <| toJson (ofCps (MC.Speech.finalize (cps (getStr req "s"))))
   | _ => none
 
-def handlers : List (String → Json → Option Json) := [handleVariant, handlePreproc, handlePrefs, handleNav, handleTts, handleIntent, handleHighlight, handleBrailleFinal, handleNumbers, handleRows, handleCanon, handleSpeech]
+def handleTextCodes (op : String) (req : Json) : Option Json :=
+  match op with
+  | "latex_cleanup" => some <| okJ <| toJson (ofCps (MC.TextCodes.latexCleanup (cps (getStr req "s"))))
+  | "asciimath_cleanup" => some <| okJ <| toJson (ofCps (MC.TextCodes.asciimathCleanup (cps (getStr req "extra")) (cps (getStr req "s"))))
+  | _ => none
+
+def handlers : List (String → Json → Option Json) := [handleVariant, handlePreproc, handlePrefs, handleNav, handleTts, handleIntent, handleHighlight, handleBrailleFinal, handleNumbers, handleRows, handleCanon, handleSpeech, handleTextCodes]
 
 def handle (req : Json) : Json :=
   let op := getStr req "op"
